@@ -68,7 +68,9 @@ def run(ctx):
         ctx.guard("watch-list" + tag, wl.run, ctx, crate, crs, tag)
         ctx.guard("restart" + tag, restart_level, ctx, crate, crs, tag)
         ctx.guard("assertions" + tag, c01.assertions, ctx, crate, crs, tag)
-        import c03, c05
+        ctx.guard("clause-shape" + tag, c01.clause_shape, ctx, crate, crs, tag)    # which literals a clause has / may move its watch to
+        import c03, c05, c09
+        ctx.guard("new-solvables" + tag, c09.new_solvables, ctx, crate, crs, tag)  # every newly selected solvable gets encoded
         ctx.guard("antecedents" + tag, c03.antecedents, ctx, crate, crs, tag)     # a learnt clause drops none of its literals
         ctx.guard("undo-total" + tag, c05.undo_total, ctx, crate, crs, tag)       # trail and map stay in step under undo
 
@@ -182,6 +184,12 @@ def decision_errors(ctx, crate, crs, tag):
         lv_const = lvd["k"] == "const" or (t["args"][2].get("k") == "const")
         if lvd["k"] == "multi":
             lv_const = all(idx != "term" and r["k"] == "use" and r["o"].get("k") == "const" for bb, idx, r in lvd.get("defs", [])) and bool(lvd.get("defs"))
+        # inside the propagation routines the level is the caller's current level, unmodified: an implied decision recorded at
+        # a lower level (e.g. clamped to the root level) is skipped by undo_until's monotone walk and survives a backjump
+        if fn in (SOLVER + "propagate", SOLVER + "decide_assertions", SOLVER + "decide_learned"):
+            lvs = {x for x in q.leaves(b, t["args"][2]) if not x.startswith("lfield:")}
+            ctx.ob(R, fn, "implied-decision-at-the-current-level", lvs == {"arg:2"}, where_call(b, i),
+                   "the level of an implied decision is the routine's `level` parameter as is (reads: %s)" % ", ".join(sorted(lvs)))
         ctx.ob(R, fn, "decision-level-is-not-a-constant", not lv_const, where_call(b, i),
                "the decision is recorded at a level computed by the caller" if not lv_const else
                "the decision is recorded at a constant level: a later backjump cannot undo the decisions below it on the trail")
